@@ -60,3 +60,23 @@ Proof.
   - apply Rdiv_lt_0_compat; lra.
   - apply (Rmult_lt_reg_r (1 + exp (- x))); [lra|]. field_simplify; lra.
 Qed.
+
+(* np.remainder(a, b) for b > 0: a - b * floor(a / b) *)
+Definition pymod (a b : R) : R := a - b * IZR (Int_part (a / b)).
+
+Lemma Int_part_floor r : IZR (Int_part r) <= r < IZR (Int_part r) + 1.
+Proof.
+  unfold Int_part. destruct (archimed r) as [H1 H2]. rewrite minus_IZR. lra.
+Qed.
+
+Lemma pymod_range a b : 0 < b -> 0 <= pymod a b < b.
+Proof.
+  intros Hb. unfold pymod. destruct (Int_part_floor (a / b)) as [H1 H2].
+  assert (Ha : a = (a / b) * b) by (field; lra).
+  split.
+  - assert (IZR (Int_part (a / b)) * b <= (a / b) * b) by (apply Rmult_le_compat_r; lra). lra.
+  - assert ((a / b) * b < (IZR (Int_part (a / b)) + 1) * b) by (apply Rmult_lt_compat_r; lra). lra.
+Qed.
+
+Lemma pymod_congruent a b : exists k : Z, pymod a b = a + IZR k * b.
+Proof. exists (- Int_part (a / b))%Z. unfold pymod. rewrite opp_IZR. ring. Qed.
